@@ -396,9 +396,20 @@ def _raise_sites(repo: Repo, ci, fn: ast.FunctionDef, guards: List[str], depth: 
 def validation_rules(repo: Repo, rep, P: str):
     ctl = repo.cls("Controller", module="rv.controller")
     rel = ctl.file.rel
-    fn = repo.own_method(ctl, "set_initial")
+    from .. import inline, guards
+    # private helpers that hold the conversion (`self._coerce(instance, t, value)`) are read as part of set_initial
+    fn = inline.normalize(repo, ctl, repo.own_method(ctl, "set_initial"))
     rep.func("rv.controller.Controller.set_initial")
     construct = f"{rel}:Controller.set_initial"
+    params = [a.arg for a in fn.args.args if a.arg != "self"]
+    vparam = params[1] if len(params) > 1 else "value"
+    # the local holding the value type: bound from self.instance_value_type(instance)
+    tvars = {n.targets[0].id for n in walk_no_nested(fn) if isinstance(n, ast.Assign) and len(n.targets) == 1 and isinstance(n.targets[0], ast.Name)
+             and isinstance(n.value, ast.Call) and norm(n.value.func) == "self.instance_value_type"}
+    if len(tvars) != 1:
+        rep.inconclusive(f"{P}.R3", construct, norm(fn)[:160], "the value type is not held in one local", f"{rel}:{fn.lineno}")
+        return
+    t = next(iter(tvars))
     g = CFG(fn)
     stores = [n for n in g.nodes if n.kind == "stmt" and isinstance(n.ast, ast.Assign)
               and any(isinstance(t, ast.Subscript) and norm(t.value) == "instance.controller_values" for t in n.ast.targets)]
@@ -409,14 +420,14 @@ def validation_rules(repo: Repo, rep, P: str):
     if "finally" in store.tag:
         rep.violation(f"{P}.R3", construct, store.text(), "the store sits in a finally block: it happens even when validation raised", f"{rel}:{store.lineno}")
     valid = [n for n in g.nodes if n.kind == "stmt" and isinstance(n.ast, ast.Assign) and isinstance(n.ast.value, ast.Call)
-             and norm(n.ast.value.func) == "t" and norm(n.ast.targets[0]) == "value"]
+             and norm(n.ast.value.func) == t and len(n.ast.value.args) == 1 and isinstance(n.ast.targets[0], ast.Name)]
     handlers = [n for n in g.nodes if n.kind == "stmt" and n.ast is not None and
                 any(isinstance(c, ast.Call) and norm(c.func) == "raise_or_warn_controller_value_validation" for c in ast.walk(n.ast))]
-    conv = [n for n in g.nodes if n.kind == "stmt" and isinstance(n.ast, ast.Assign) and norm(n.ast.targets[0]) == "value"
-            and norm(n.ast.value) in ("t[value]", "None")]
+    conv = [n for n in g.nodes if n.kind == "stmt" and isinstance(n.ast, ast.Assign) and isinstance(n.ast.targets[0], ast.Name)
+            and norm(n.ast.value) in (f"{t}[{vparam}]", "None")]
     gates = {n.id for n in valid + handlers + conv}
     if not valid:
-        rep.violation(f"{P}.R3", construct, "value = t(value)", "the value is no longer validated through its value type", f"{rel}:{fn.lineno}")
+        rep.violation(f"{P}.R3", construct, f"{vparam} = {t}({vparam})", "the value is no longer validated through its value type", f"{rel}:{fn.lineno}")
     # every path entry → store passes a gate (validation success, strict-mode raise site, or enum-name / None conversion)
     reach = g.reachable(avoid=gates, labels_excluded=set())
     if store.id in reach:
@@ -501,8 +512,19 @@ def validation_rules(repo: Repo, rep, P: str):
         rep.violation(f"{P}.R4", f"{rel}:WarnOnlyRange", str(sorted(wo.methods)), "WarnOnlyRange must stay a plain marker subclass", rel)
     # enum by name, None type
     s2 = norm(fn)
-    if "isinstance(value, str) and isinstance(t, type) and issubclass(t, Enum)" in s2 and "value = t[value]" in s2:
-        rep.ok(f"{P}.R3", construct, "value = t[value] for enum names", "enumeration members can be assigned by name; invalid names raise KeyError")
+    dom = g.dominators()
+    by_name = [n for n in g.nodes if n.kind == "stmt" and isinstance(n.ast, ast.Assign) and norm(n.ast.value) == f"{t}[{vparam}]"]
+    want = guards.facts_text(f"isinstance({vparam}, str) and isinstance({t}, type) and issubclass({t}, Enum)")
+    if by_name:
+        from . import c14
+        known = c14._facts(c14._dominating_conditions(g, dom, by_name[0].id))
+        if want <= known:
+            rep.ok(f"{P}.R3", construct, f"{t}[{vparam}] for enum names", "enumeration members can be assigned by name; invalid names raise KeyError")
+        else:
+            rep.inconclusive(f"{P}.R3", construct, by_name[0].text(), f"name look-up is guarded by {sorted(known)}, expected {sorted(want)}",
+                             f"{rel}:{by_name[0].lineno}")
+    elif f"isinstance({vparam}, str)" in s2:
+        rep.inconclusive(f"{P}.R3", construct, s2[:160], "string values are handled in a way that is not recognised", f"{rel}:{fn.lineno}")
     else:
         rep.violation(f"{P}.R3", construct, s2[:160], "enumeration members must be assignable by name", f"{rel}:{fn.lineno}")
 
